@@ -108,7 +108,7 @@ Proof.
   destruct Hin as (H1 & H2 & oh & Hoh & Hw & Hs). destruct lk as [h' ts]. cbn [fst] in H1. subst h'.
   destruct (child_dec s t x h ts d ne (G s) r K oh Hg Hf H2 Hoh Hw ltac:(lia)) as (s1 & Hrun & Hu & Hh1).
   replace (strong (oword oh) =? 1) with false in Hu by lia.
-  destruct (dec_fields (oword oh) (merged (G s) ne ts (epoch (oword oh))) Hw ltac:(lia)) as (A1 & A2 & A3 & A4 & A5).
+  destruct (dec_fields (oword oh) (child_stamp (G s) ne ts (epoch (oword oh))) Hw ltac:(lia)) as (A1 & A2 & A3 & A4 & A5).
   fold (dec_word (G s) ne ts (oword oh)) in A1, A2, A3, A4, A5.
   exists 3%nat, s1. split; [cbn; lia|]. split; [exact Hrun|]. split; [exact Hu|].
   split; [intros o []|]. intros h' [<-|[]]. exists oh, (dec_word (G s) ne ts (oword oh)). auto 10.
